@@ -20,7 +20,10 @@ def union_copy_shortcut_wrong_member(v):
         return True
     # general form of the same mechanism (C11): the union serializer takes the first member, in declaration
     # order, whose packer does not raise; a non-basic member declared before the value's own member got the value
-    return bool(f.get("earlier_nonscalar_member_before_value_member")) and v.get("sig", "").startswith("encode:")
+    if bool(f.get("earlier_nonscalar_member_before_value_member")) and v.get("sig", "").startswith("encode:"):
+        return True
+    # the same seen from a round trip (C01): the DOCUMENT already differs from the reference encoding of the value
+    return bool(f.get("earlier_nonscalar_member_before_value_member")) and f.get("document_differs_from_reference_encoding") is True
 
 
 @predicate
